@@ -5,7 +5,7 @@
    verified), [fo] over every outcome of decoding the filter parameter.
    Hence "for any raw URL string". *)
 From JV Require Import Model.Base Model.GoTime Gen.TypeGo Model.Schema Model.Value
-  Model.Url Proofs.C07Facts Proofs.C07Fields Proofs.C07Include.
+  Model.Url Proofs.C07Facts Proofs.C07Fields Proofs.C07Include Proofs.C07Prune.
 
 (* parsing returns an error or a URL, never panics (the model's loops have no
    indexing or assertion left: the repaired code, see KNOWN_FINDINGS) *)
@@ -68,9 +68,29 @@ Theorem C07_include_all_valid_partial : forall s su rt p,
 Proof. exact new_params_include_all_valid. Qed.
 Print Assumptions C07_include_all_valid_partial.
 
-(* NOT PROVED here (correspondence + oracle only): which requested paths the
-   pruning keeps, and the inclusion clause when some requested path is
-   invalid (outside the recorded finding). *)
+(* "each valid requested path being kept unless a longer requested path
+   extends it", where the recorded finding cannot occur (every requested path
+   valid): a requested path that no requested path extends ([extends q p]: q
+   starts with p followed by a dot) is among the URL's inclusion paths, as the
+   chain of relationships [build_include] gives, and every inclusion path of the
+   URL was requested. *)
+Theorem C07_valid_paths_kept_partial : forall s su rt prm p,
+  has_type s "" = false -> tname (get_type s rt) <> "" ->
+  Forall (fun q => words_valid s rt (split_char "." q) = true /\ split_char "." q <> []) (su_include su) ->
+  new_params s su rt = Ok prm ->
+  In p (su_include su) -> (forall q, In q (su_include su) -> extends q p = false) ->
+  In (build_include s rt p) (p_include prm) /\
+  (forall c, In c (p_include prm) -> exists q, In q (su_include su) /\ c = build_include s rt q).
+Proof. exact new_params_keeps_valid. Qed.
+Print Assumptions C07_valid_paths_kept_partial.
+
+Example c07_prune_example :
+  prune_includes (isort String.ltb ["r"; "r.back"; "a"; "r"; "a-b"; "a.b"]) = ["a"; "a-b"; "a.b"; "r.back"] /\
+  extends "r.back" "r" = true /\ extends "a-b" "a" = false.
+Proof. vm_compute. repeat split. Qed.
+
+(* NOT PROVED here (correspondence + oracle only): the inclusion clause when
+   some requested path is invalid (outside the recorded finding). *)
 
 Example c07_rules_example :
   sorting_rules (mkType "t" [("a", mkAttr "a" 1 false); ("b", mkAttr "b" 2 false)] [])
